@@ -7,7 +7,7 @@
   rejects (rather than answers) a conditioning event that is itself impossible.
 
   Everything below is about the executable model `Y0.Cf.idcStar` (Y0/Model/IdcStar.lean: the code after the three
-  `fix:` commits listed in known_findings.jsonl), which the correspondence check (harness/props/c08.py) compares with
+  `fix:` commits to idc_star.py and the `fix:` a54a0f5 to `Expression.conditional` listed in known_findings.jsonl), which the correspondence check (harness/props/c08.py) compares with
   the real `idc_star` on every run under every iteration order of the sets the Python iterates over.
 
   PROVED (all graphs, events, fuels, iteration orders):
@@ -19,28 +19,52 @@
     * `idcstar_zero_of_inconsistent`             line 3: 'inconsistent' joint event ⇒ Zero
     * `idcstar_zero_line3_sound`                 … and then the joint event has probability 0 in every compatible functional SCM
     * `idcstar_fuel_mono`                        more fuel never changes an answer that was reached
+    * `idcstar_own_recursion_terminates`         TERMINATION of the line-4 recursion when no name is both an outcome and a
+                                                 condition: `|conditions| + 1` units of fuel are never exhausted
+                                                 (`idcStarO` = the model with its own exhaustion observable,
+                                                 `idcstar_model_is_idcStarO`); `idcstar_bound_suffices`: the model's bound is enough
     * `idcstar_division_modelled`                ID* never returns a Fraction: the modelled division covers every case
+    * `idcstar_sound_fragment`                   SOUNDNESS ON A NAMED FRAGMENT (`InFragmentC`, decidable: `inFragmentCB`): observational
+                                                 conditional queries P(y | x) — factual variables of the graph, unstarred values, no
+                                                 name on both sides — on which rule 2 applies to no condition and the joint ID*
+                                                 estimand marginalises nothing.  There the returned expression EQUALS
+                                                 P(outcomes ∧ conditions) / P(conditions) in every compatible functional SCM
+                                                 (via `idstar_sound_fragment`, the repaired `conditional`, marginalisation)
     * vocabulary (C06 part) `idcstar_vocab`      every leaf of a returned estimand is a single-world term
 
-  -- OPEN (stated in full, NOT proved; the first is FALSE on the current tree — see the C08 entries of known_findings.jsonl):
+  -- OPEN (stated in full, NOT proved outside the fragment; the first is FALSE on the current tree outside it — see the C08
+  -- entries of known_findings.jsonl):
   --   theorem idcstar_sound : idcStar ordf dordf kordf G outs conds = .ok e → e ≠ .zero → M.Compatible G →
   --       EventWF M (outs ++ conds) → ν.Distinct → 0 < probEvent M ν conds →
   --       den M ν (outs ++ conds) e = probEvent M ν (outs ++ conds) / probEvent M ν conds
-  --     planned reduction (DESIGN §4 C08): `conditional_den` (C13; false today: F11) + `idstar_sound` (C07; false today: F10)
+  --     planned reduction (DESIGN §4 C08): `conditional_den_spec_observational` (C13; F11 is repaired for subscripts, the bound-range part is open) + `idstar_sound` (C07; false today: F10)
   --     + soundness of the exchange step (rule 2 of the do-calculus on the counterfactual graph, via d-separation C04).
+  --     Proved for the no-exchange observational fragment (`idcstar_sound_fragment`).  The next step — one factual condition X
+  --     exchanged for do(x) with every outcome a descendant of X — needs rule 2 for functional SCMs
+  --     (P(y | x) = P(y_x) when Y ⫫ X in G with the edges leaving X removed); `rule2_sound` (Props/C03) proves it for positive
+  --     kernel SCMs, the transfer through Lemmas/FscmToScm needs positive push-forward kernels, which the quantifier of C08
+  --     ("every compatible SCM in which the conditions have positive probability") does not grant.
   --   theorem idcstar_zero_sound : idcStar … = .ok .zero → … → probEvent M ν (outs ++ conds) = 0
   --     proved for Zero from line 3 (`idcstar_zero_line3_sound`) and for Zero coming from ID*'s lines 2 and 5 (C07); Zero from
   --     deeper inside ID* is open (false today: F10/M5).
   --   theorem idcstar_terminates : idcStar … ≠ .error (.internal "fuel")
-  --     The two inner ID* calls terminate (Props/C07 `idstar_never_out_of_fuel`).  For the line-4 recursion of IDC* itself no
-  --     decreasing measure is proved, and the obvious ones FAIL on concrete inputs: the re-association of merged nodes
-  --     (`get_new_outcomes_and_conditions`, by variable NAME) can put a new key into BOTH dicts, so neither |conditions| nor
-  --     |outcomes| + |conditions| nor the number of distinct keys decreases at every step — e.g. graph B → C, event
-  --     outcomes {C_{a,b,c'} = c', B_{a',b,c'} = b'}, conditions {A_{a,b,c'} = a, C_{a} = c}: the next call has 3 outcomes and
-  --     2 conditions, 2 of them shared.  On 50 000 random inputs (≤ 6 nodes, ≤ 4 worlds) the recursion depth never exceeded
-  --     |conditions| + 1 (max 4) and no RecursionError occurred; checked on every generated input by the correspondence.
+  --     The two inner ID* calls terminate (Props/C07 `idstar_never_out_of_fuel`).  For the line-4 recursion of IDC* itself:
+  --     PROVED on every input in which no variable NAME occurs both among the outcomes and among the conditions
+  --     (`idcstar_own_recursion_terminates`, explicit bound |conditions| + 1, any graph, any iteration orders): there the
+  --     re-association never adds a condition and every level removes one.
+  --     OPEN when an outcome and a condition are copies of one variable (e.g. Y_x and Y_x'): the re-association of merged nodes
+  --     (`get_new_outcomes_and_conditions`, by variable NAME) can then put a new key into BOTH dicts, so |conditions| grows
+  --     (e.g. graph B → C, outcomes {C_{a,b,c'} = c', B_{a',b,c'} = b'}, conditions {A_{a,b,c'} = a, C_{a} = c}: the next call has
+  --     3 outcomes and 2 conditions, 2 of them shared).  A shared key is never exchanged itself (rule 2 would need it
+  --     d-separated from itself) but the exchange of another condition can SPLIT it into an outcome k_{..,c} and a condition
+  --     k; no linear combination of |keys|, |shared keys|, |unshared conditions|, |unshared outcomes| decreases through both
+  --     steps, a proof needs to know when the merge loop can eliminate a key again.  No looping input was found: 45 000
+  --     random inputs with up to 5 worlds, repeated names and keys shared between outcomes and conditions (and the 50 000 of
+  --     the previous round) never recursed deeper than |conditions| + 1; checked on every generated input by the correspondence.
 -/
 import Y0.Lemmas.CfIdcStar
+import Y0.Lemmas.CfIdcTerm
+import Y0.Lemmas.CfIdcFrag
 import Y0.Props.C07
 
 namespace Y0.Cf
@@ -122,6 +146,130 @@ theorem idcstar_division_modelled (ev : Event) (e : Expr) (rs : List Name) (h : 
     conditional e rs ≠ .error (.internal "unmodelled: division by a Fraction") :=
   conditional_modelled e rs (idStarFuel_noFrac ordf dordf G _ ev e h)
 
+/-! ## 2b. termination of the line-4 recursion -/
+
+/-- `idcStarO` (Lemmas/CfIdcTerm.lean) is the IDC* model, equation by equation, with the exhaustion of IDC*'s OWN fuel made
+observable as `none` (in `idcStarFuel` it is the error `internal "fuel"`, which an inner ID* call could also produce) -/
+theorem idcstar_model_is_idcStarO (fuel : Nat) (outcomes conditions : Event) :
+    idcStarFuel ordf dordf kordf G fuel outcomes conditions =
+      match idcStarO ordf dordf kordf G fuel outcomes conditions with
+      | some r => r
+      | none => .error (.internal "fuel") :=
+  idcStarFuel_eq_idcStarO ordf dordf kordf G fuel outcomes conditions
+
+/-- **IDC*'s own recursion terminates, with the explicit bound `|conditions| + 1`, on every input in which no variable name
+occurs both among the outcomes and among the conditions** — for every graph (no well-formedness needed), every iteration
+order of the worlds / district nodes, and every order `kordf` that only permutes or selects the re-associated keys.
+Measure: `|conditions|`; the merge loop of the counterfactual graph renames keys within their name (`cg_count_le`), so
+the re-association returns at most `|conditions|` conditions (`reassoc_spec`), and line 4 removes one. -/
+theorem idcstar_own_recursion_terminates (hk : SubsetOrder kordf) (outcomes conditions : Event)
+    (hC : conditions.keys.Nodup) (hdis : ∀ o ∈ outcomes.keys, ∀ c ∈ conditions.keys, o.name ≠ c.name)
+    (fuel : Nat) (hfuel : conditions.length + 1 ≤ fuel) :
+    ∃ r, idcStarO ordf dordf kordf G fuel outcomes conditions = some r ∧
+      idcStarFuel ordf dordf kordf G fuel outcomes conditions = r := by
+  have h := idcStarO_isSome ordf dordf G hk fuel outcomes conditions hC
+    (fun o ho hmem => by
+      obtain ⟨c, hc, hcn⟩ := List.mem_map.1 hmem
+      exact hdis o ho c hc hcn.symm) hfuel
+  obtain ⟨r, hr⟩ := Option.isSome_iff_exists.1 h
+  refine ⟨r, hr, ?_⟩
+  rw [idcStarFuel_eq_idcStarO, hr]
+
+/-- the bound the model itself uses (`2(|outcomes| + |conditions|) + |V| + 4`) is enough there: `idc_star` is the
+result of the un-exhausted recursion -/
+theorem idcstar_bound_suffices (hk : SubsetOrder kordf) (outcomes conditions : Event)
+    (hC : conditions.keys.Nodup) (hdis : ∀ o ∈ outcomes.keys, ∀ c ∈ conditions.keys, o.name ≠ c.name) :
+    ∃ r, idcStarO ordf dordf kordf G (idcStarFuelBound G outcomes conditions) outcomes conditions = some r ∧
+      idcStar ordf dordf kordf G outcomes conditions = r := by
+  unfold idcStar
+  exact idcstar_own_recursion_terminates ordf dordf kordf G hk outcomes conditions hC hdis _
+    (by unfold idcStarFuelBound; omega)
+
+/-- … and every larger fuel gives the same un-exhausted run (so the answer does not depend on the fuel) -/
+theorem idcstar_fuel_irrelevant (hk : SubsetOrder kordf) (outcomes conditions : Event)
+    (hC : conditions.keys.Nodup) (hdis : ∀ o ∈ outcomes.keys, ∀ c ∈ conditions.keys, o.name ≠ c.name)
+    (fuel : Nat) (hfuel : conditions.length + 1 ≤ fuel) :
+    (idcStarO ordf dordf kordf G fuel outcomes conditions).isSome = true := by
+  obtain ⟨r, hr, _⟩ := idcstar_own_recursion_terminates ordf dordf kordf G hk outcomes conditions hC hdis fuel hfuel
+  rw [hr]; rfl
+
+/-! ## 2c. soundness on a named fragment -/
+
+/-- static part of the fragment, as an executable test: outcomes and conditions are dicts of FACTUAL variables of `G` with
+unstarred values, no variable name on both sides, at least one condition -/
+def fragCStaticB (G : MG Name) (O C : Event) : Bool :=
+  decide O.keys.Nodup && decide C.keys.Nodup &&
+  (O ++ C).all (fun p => decide (p.1 = Var.plain p.1.name) && decide (p.2 = ⟨p.1.name, false⟩) && decide (p.1.name ∈ G.nodes)) &&
+  O.keys.all (fun o => C.keys.all (fun c => decide (o.name ≠ c.name))) && !C.isEmpty
+
+/-- rule 2 applies to no condition (line 4 does not recurse) -/
+def noExchangeB (ordf : List World → List World) (G : MG Name) (O C : Event) : Bool :=
+  match makeCounterfactualGraph ordf G (O ++ C) with
+  | .ok (cf, some _) => (match firstExchangeable cf O.keys C.keys with | .ok none => true | _ => false)
+  | _ => true
+
+/-- ID*'s estimand for the joint event mentions exactly the event's variables: nothing was marginalised (no `Sum`, whose
+bound variable `Expression.conditional` would sum over a second time — what remains of F11) -/
+def estNamesB (ordf : List World → List World) (dordf : List Var → List Var) (G : MG Name) (O C : Event) : Bool :=
+  match idStar ordf dordf G (O ++ C) with
+  | .ok est => (exprNames est).all (fun n => decide (n ∈ (O ++ C).keys.map (·.name))) &&
+      ((O ++ C).keys.map (·.name)).all (fun n => decide (n ∈ exprNames est))
+  | .error _ => true
+
+/-- **The fragment of IDC\***: observational conditional queries `P(y | x)` (conjunctions of factual variables of `G`, unstarred
+values, outcome names ≠ condition names) on which rule 2 applies to no condition and ID* answers the joint event without
+marginalising a variable.  Decidable from the input (`inFragmentCB` runs the model's own test functions). -/
+def inFragmentCB (ordf : List World → List World) (dordf : List Var → List Var) (G : MG Name) (O C : Event) : Bool :=
+  fragCStaticB G O C && noExchangeB ordf G O C && estNamesB ordf dordf G O C
+
+def InFragmentC (ordf : List World → List World) (dordf : List Var → List Var) (G : MG Name) (O C : Event) : Prop :=
+  inFragmentCB ordf dordf G O C = true
+
+theorem fragC_of_static {O C : Event} (h : fragCStaticB G O C = true) : FragC G O C := by
+  simp only [fragCStaticB, Bool.and_eq_true, decide_eq_true_eq, List.all_eq_true, Bool.not_eq_true',
+    List.isEmpty_eq_false_iff] at h
+  obtain ⟨⟨⟨⟨h1, h2⟩, h3⟩, h4⟩, h5⟩ := h
+  exact ⟨h1, h2, fun p hp => (h3 p hp).1.1, fun p hp => (h3 p hp).1.2, fun p hp => (h3 p hp).2,
+    fun o ho c hc => h4 o ho c hc, h5⟩
+
+/-- **IDC\* is sound on the fragment.**  For every functional SCM `M` compatible with the (well-formed, loop-free) graph, with
+normalised noise and values bounded by `dom`, every base values `ν`: if `(outcomes, conditions)` is in the fragment and
+`idc_star` returns `e`, then `e` — read as in C07 (`cden`) with the event's values — EQUALS
+`P(outcomes ∧ conditions) / P(conditions)` (both sides are 0 when the conditions have probability 0: `x / 0 = 0`).
+Proof: on the fragment the counterfactual graph merges nothing, the re-association is the identity, so `e` is
+`est.conditional(condition names)` for ID*'s answer `est` to the joint event (`idcStarFuel_frag_path`); `est` is the joint
+probability for EVERY valuation of its free symbols (`idStarFuel_sound_frag`, C07), its normaliser sums exactly the outcome
+variables (the repaired `conditional`; `estNamesB` excludes the bound ranges of the open F11 part), which is the marginal of
+the conditions (`sumOver_prob`). -/
+theorem idcstar_sound_fragment (M : Model) (ν : BaseValues) (dom : Name → Nat) (hM : Compatible M G) (hnorm : M.Normalised)
+    (hdom : ∀ v ps us, M.f v ps us < dom v) (hG : G.WF) (hdl : ∀ e ∈ G.di, e.1 ≠ e.2) (hbl : ∀ e ∈ G.bi, e.1 ≠ e.2)
+    (hord : PermOrder ordf) (hdo : PermDistrict dordf)
+    (outcomes conditions : Event) (hfr : InFragmentC ordf dordf G outcomes conditions) (e : Expr)
+    (h : idcStar ordf dordf kordf G outcomes conditions = .ok e) :
+    cden M ν dom e (fun n => ν n false) = probEvent M ν (outcomes ++ conditions) / probEvent M ν conditions := by
+  unfold InFragmentC inFragmentCB at hfr
+  simp only [Bool.and_eq_true] at hfr
+  obtain ⟨⟨hst, hnx⟩, hnm⟩ := hfr
+  have hb : idcStarFuelBound G outcomes conditions =
+      (2 * (outcomes.length + conditions.length) + G.nodes.length + 3) + 1 := by
+    unfold idcStarFuelBound; omega
+  unfold idcStar at h
+  rw [hb] at h
+  apply idcStarFuel_sound_fragC ordf dordf kordf G M ν dom hM (fun pmf hp => (hnorm pmf hp).2) hdom hG hdl hbl hord hdo
+    (fragC_of_static G hst) ?_ ?_ _ e h
+  · intro cf nev hcg
+    unfold noExchangeB at hnx
+    rw [hcg] at hnx
+    simp only at hnx
+    split at hnx
+    · assumption
+    · cases hnx
+  · intro est hest
+    unfold estNamesB at hnm
+    rw [hest] at hnm
+    simp only [Bool.and_eq_true, List.all_eq_true, decide_eq_true_eq] at hnm
+    exact fun n => ⟨hnm.1 n, hnm.2 n⟩
+
 /-! ## 3. vocabulary (C06, IDC* part) -/
 
 /-- every estimand IDC* returns is built from single-world interventional terms -/
@@ -133,5 +281,26 @@ theorem idcstar_vocab (outcomes conditions : Event) (e : Expr)
 
 /-- the hypothesis of `idcstar_rejects_effectiveness_violation` is satisfiable: `{X_x = x'}` -/
 example : violatesEffectiveness [(⟨0, none, false, [⟨0, false⟩]⟩, ⟨0, true⟩)] = true := by decide
+
+/-- the hypotheses of `idcstar_own_recursion_terminates` are satisfiable by a query on which line 4 does recurse:
+`P(Y_x = y | Z = z)` (X=0, Y=1, Z=2): conditions form a dict, no name shared; identity order for the re-associated keys -/
+example : SubsetOrder (fun l : List Var => l) ∧
+    (Event.keys [(⟨2, none, false, []⟩, ⟨2, false⟩)]).Nodup ∧
+    (∀ o ∈ Event.keys [(⟨1, none, false, [⟨0, false⟩]⟩, ⟨1, false⟩)],
+      ∀ c ∈ Event.keys [(⟨2, none, false, []⟩, ⟨2, false⟩)], o.name ≠ c.name) := by
+  refine ⟨fun _ _ h => h, by decide, by decide⟩
+
+/-- the fragment is not empty: `P(Y = y | X = x)` on the bow graph `X → Y`, `X ↔ Y` (X=0, Y=1; rule 2 does not apply, the
+answer is `P(X, Y) / Σ_Y P(X, Y)`), and `P(X = x | Y = y)` on `X → Y` -/
+example : inFragmentCB sortWorlds (sortBy Var.keyLt) (MG.fromEdges [0, 1] [(0, 1)] [(0, 1)])
+    [(Var.plain 1, ⟨1, false⟩)] [(Var.plain 0, ⟨0, false⟩)] = true := by decide
+example : inFragmentCB sortWorlds (sortBy Var.keyLt) (MG.fromEdges [0, 1] [(0, 1)] [])
+    [(Var.plain 0, ⟨0, false⟩)] [(Var.plain 1, ⟨1, false⟩)] = true := by decide
+/-- … and `P(Y = y | X = x)` on `X → Y` is outside it (rule 2 applies: line 4 recurses) -/
+example : inFragmentCB sortWorlds (sortBy Var.keyLt) (MG.fromEdges [0, 1] [(0, 1)] [])
+    [(Var.plain 1, ⟨1, false⟩)] [(Var.plain 0, ⟨0, false⟩)] = false := by decide
+
+/-- the order the correspondence check uses for the re-associated keys satisfies the hypothesis on `kordf` -/
+example (rev : Bool) : SubsetOrder (orderDistrict rev) := subsetOrder_orderDistrict rev
 
 end Y0.Cf
